@@ -728,7 +728,7 @@ func c07RaceScenarios(tier string) []scenario {
 }
 
 func init() {
-	for _, prop := range []string{"C01", "C02", "C16"} {
+	for _, prop := range []string{"C01", "C02", "C05", "C16"} {
 		scs := c07CrossScenarios(prop)
 		fw.Register(fw.Part{Prop: prop, Name: "s.xconn",
 			Units:  func(tier string) []fw.Unit { return scenarioUnits(scs(tier)) },
